@@ -153,6 +153,24 @@ pub fn tmp_file(tag: &str) -> PathBuf {
     tmp_dir().join(format!("{tag}-{c}"))
 }
 
+/// Every other time the path a graph is saved to already holds an older checkpoint that is
+/// LONGER than most images: a valid image of another graph written by save() itself, or
+/// (every fourth time) a file of other content. save() must replace it.
+pub fn older_checkpoint(p: &std::path::Path, n: usize, sel: usize) {
+    match sel % 4 {
+        1 => {
+            let mut older = new_graph(n, 6);
+            older.add(0);
+            older.put(0, &hex_of(&vec![0xB7u8; 20_000]));
+            let _ = older.save(p);
+        }
+        3 => {
+            let _ = std::fs::write(p, vec![0xA5u8; 30_000]);
+        }
+        _ => {}
+    }
+}
+
 pub fn cleanup_tmp() {
     let _ = std::fs::remove_dir_all(tmp_dir());
 }
@@ -361,6 +379,8 @@ impl Runner {
             Call::NextId | Call::NextIdAdd => m.allocator_room() >= 1,
             Call::Clone | Call::SaveLoad | Call::Snapshot | Call::RefreshSnapshot => true,
             Call::Slice(v) | Call::SliceSome(v, _) => m.present(*v) && m.reachable(*v).is_some_and(|r| r.len() <= 14),
+            Call::SliceAny(v) => m.present(*v),
+            Call::Checkpoint => true,
             Call::CloneInto { cap, ids } => *cap >= 1 && ids.iter().all(|i| i < cap),
             Call::Merge { h, left } => {
                 h.nodes.iter().all(|n| n.id < h.cap)
@@ -493,6 +513,7 @@ impl Runner {
                 }
                 Call::SaveLoad => {
                     let p = tmp_file("img");
+                    older_checkpoint(&p, n, idx);
                     let r = g.save(&p).and_then(|sz| {
                         let l = g.load_same(&p)?;
                         Ok((sz, l))
@@ -507,6 +528,17 @@ impl Runner {
                     }
                 }
                 Call::Slice(v) => Ret::Slice(
+                    g.slice(*v)
+                        .map(|s| observe_slice(&*s))
+                        .map_err(|e| format!("{e:#}")),
+                ),
+                Call::Checkpoint => {
+                    let p = tmp_file("ckpt");
+                    let r = g.save(&p);
+                    let _ = std::fs::remove_file(&p);
+                    Ret::SaveLoad(r.map_err(|e| format!("{e:#}")))
+                }
+                Call::SliceAny(v) => Ret::Slice(
                     g.slice(*v)
                         .map(|s| observe_slice(&*s))
                         .map_err(|e| format!("{e:#}")),
@@ -607,7 +639,7 @@ impl Runner {
             }
             Call::Kid(v, l) => Exp::Kid(self.m.kid(*v, l)),
             Call::Kids(v) => Exp::Kids(self.m.get(*v).edges.clone()),
-            Call::Clone | Call::Snapshot | Call::RefreshSnapshot | Call::CloneInto { .. } | Call::SliceSome(..) => Exp::None,
+            Call::Clone | Call::Snapshot | Call::RefreshSnapshot | Call::CloneInto { .. } | Call::SliceSome(..) | Call::SliceAny(_) | Call::Checkpoint => Exp::None,
             Call::SaveLoad => {
                 self.m.reset_allocator();
                 self.hist.returned.clear();
